@@ -77,6 +77,16 @@ def step (st : St) : List String → St × String
       | (some gs, s') => ({ st with s := s' }, "ok " ++ ids gs)
       | (none, s') => ({ st with s := s' }, "err")
     | _, _ => (st, "bad-op")
+  | ["raceuse", u, k, n] => match fromHex u, key? k, n.toNat? with
+    -- n concurrent calls of AuthorizeKeyAuthGrant are n calls in some order: the first gets the
+    -- stored grants, the others find none (C05_grant_consumed)
+    | some u, some k, some n =>
+      if 2 ≤ n ∧ n ≤ 64 then
+        match useGrants st.s u k with
+        | (some gs, s') => ({ st with s := s' }, "wins=1 " ++ ids gs)
+        | (none, s') => ({ st with s := s' }, "wins=0 -")
+      else (st, "bad-op")
+    | _, _, _ => (st, "bad-op")
   | ["login", u, k] => match fromHex u, key? k with
     | some u, some k =>
       match login st.s st.lookup u k with
